@@ -23,7 +23,7 @@ type gor struct {
 	timedOut   bool
 	// preempted with a delay: resumes only when no other goroutine can run
 	delayed   bool
-	quiescing bool // inside quiesce(): waiting for everybody else to come to rest
+	restLevel int // inside quiesce(): 1 = a timed rest (sleep, timer, slow command), 2 = the harness waiting for everybody to finish
 }
 
 type killSignal struct{}
@@ -111,9 +111,10 @@ func (ex *exec) pickNext(self *gor) *gor {
 	var cands, late []*gor
 	for _, g := range ex.gors {
 		if g != self && ex.runnable(g) {
-			if g.quiescing && self.quiescing {
-				// two goroutines waiting for everybody else to come to rest do not
-				// wake each other: the running one finishes its wait first
+			if self.restLevel > 0 && g.restLevel >= self.restLevel {
+				// a resting goroutine is not woken by another one resting at the same or a
+				// lower urgency: timed rests (sleep, timer, slow command) end when everybody
+				// who is active has come to rest; the harness's Quiesce waits for those too
 				continue
 			}
 			if g.delayed {
@@ -201,10 +202,13 @@ func (ex *exec) abortFrom(g *gor, a abort) {
 
 // gosched lets other runnable goroutines run until they block or finish
 // (used by vf.Quiesce and at preemption points).
-func (ex *exec) quiesce() {
+func (ex *exec) quiesce() { ex.rest(1) }
+
+func (ex *exec) rest(level int) {
 	g := ex.cur
-	g.quiescing = true
-	defer func() { g.quiescing = false }()
+	prev := g.restLevel
+	g.restLevel = level
+	defer func() { g.restLevel = prev }()
 	for {
 		next := ex.pickNext(g)
 		if next == nil {
